@@ -50,6 +50,10 @@ Apply(s, op, big, PS) ==
     [] op.k = "w"   -> SetDebug(SetData(s, op.a, op.v[1], PS), op.a, op.line, PS)
     [] op.k = "wd"  -> SetDebug(s, op.a, op.line, PS)
     [] op.k = "clr" -> Clear(s, PS)
+    \* low_address / high_address are public bookkeeping that the file loaders assign after loading (read_elf: the span of
+    \* the executable sections); what is stored does not depend on them
+    [] op.k = "lo"  -> [s EXCEPT !.low = op.a]
+    [] op.k = "hi"  -> [s EXCEPT !.high = op.a]
     [] OTHER        -> s
 \* what a read operation returns
 ReadBytes(s, a, w, big) == [k \in 1..w |-> Rd(s.b, a + Off(k, w, big), 0)]
